@@ -78,4 +78,8 @@ def run(repo, tier) -> Result:
     res.universe = {"classes": [ca.ci.name for ca in cas], "helper_names": n_names, "max_depth": need}
     res.rule("R-NS", floor=30)
     res.rule("R-OWN", floor=12)
+    from ..framework_rules import check_ctor_effects, check_registry_writers
+
+    check_ctor_effects("C13", res, repo)
+    check_registry_writers("C13", res, repo)
     return res
